@@ -22,6 +22,7 @@ Definition spv_validate (m : header * list instr) : list violation :=
   dup_types [] ps ++
   rule_vulkan h defs ps (collect_fns ps 0 None) ++
   rule_caps h defs ps ++
+  rule_enumerants ps ++
   rule_types defs ps (collect_fns ps 0 None).
 
 Record stats := { st_instrs : Z; st_opaque : Z; st_unchecked : Z; st_functions : Z; st_blocks : Z; st_ids : Z }.
